@@ -87,6 +87,8 @@ func (p *process) Invoke(msgs []Envelope) {
 		// bottom of the function it freezes some tests. Hence, I created a new counter
 		// for bookkeeping.
 		processed = 0
+		// set while the messages queued behind a graceful poison pill are drained.
+		draining *Envelope
 	)
 	defer func() {
 		// If we recovered, we buffer up all the messages that we could not process
@@ -95,6 +97,11 @@ func (p *process) Invoke(msgs []Envelope) {
 			p.mbuffer = make([]Envelope, nmsg-nproc)
 			for i := 0; i < nmsg-nproc; i++ {
 				p.mbuffer[i] = msgs[i+nproc]
+			}
+			// A panic while draining behind a graceful pill: the stop request is
+			// still pending, it goes behind what is left to drain.
+			if draining != nil {
+				p.mbuffer = append(p.mbuffer, *draining)
 			}
 			p.tryRestart(v)
 		}
@@ -107,10 +114,14 @@ func (p *process) Invoke(msgs []Envelope) {
 			// If we need to gracefuly stop, we process all the messages
 			// from the inbox, otherwise we ignore and cleanup.
 			if pill.graceful {
-				msgsToProcess := msgs[processed:]
-				for _, m := range msgsToProcess {
-					p.invokeMsg(m)
+				// nproc keeps counting while we drain, so that a panic in here resumes
+				// behind the message that failed (and not behind the pill again).
+				draining = &msgs[i]
+				for j := i + 1; j < len(msgs); j++ {
+					nproc++
+					p.invokeMsg(msgs[j])
 				}
+				draining = nil
 			}
 			p.cleanup(pill.cancel)
 			return
